@@ -125,9 +125,13 @@ def _cat_data(shape, nser, rnd, number_format=None):
         a2.add_sub_category("z")
         spec.append(("A", "A2", "z"))
         b = d.add_category("B")
-        b1 = b.add_sub_category("B1")
-        b1.add_sub_category("w")
-        spec.append(("B", "B1", "w"))
+        b1 = b.add_sub_category("A1")  # labels repeat under different parents (quarters under years): a label does not identify a node
+        for leaf in ("x", "w"):
+            b1.add_sub_category(leaf)
+            spec.append(("B", "A1", leaf))
+        b2 = b.add_sub_category("A2")
+        b2.add_sub_category("z")
+        spec.append(("B", "A2", "z"))
     else:
         raise ValueError(shape)
     n = len(spec)
